@@ -223,3 +223,46 @@ func TestKnownFinding_F8_PreviousKeyInClear(t *testing.T) {
 		t.Log("the previous key is no longer stored in clear: move the finding to 'fixed'")
 	}
 }
+
+// F12 (known finding): a root minted as "next" by a rotation call at time t expires at
+// t + lifetime + not-after skew (+ the small shift), not a full validity span (lifetime +
+// not-after skew - not-before skew) after t. A following rotation call that comes later than
+// that, but still sooner than one validity span after the previous call, finds current and
+// next both expired and starts over: trust is reset although the interval is shorter than
+// the validity span.
+func TestKnownFinding_F12_IntervalWithinNotBeforeSkewOfSpanResetsTrust(t *testing.T) {
+	const unit = 200 * time.Millisecond
+	opts := []nodeenrollment.Option{nodeenrollment.WithCertificateLifetime(16 * unit), nodeenrollment.WithNotBeforeClockSkew(-2 * unit), nodeenrollment.WithNotAfterClockSkew(0)}
+	span := 18 * unit
+	st, _ := inmem.New(ctx)
+	rot := func() *types.RootCertificates {
+		r, err := rotation.RotateRootCertificates(ctx, st, opts...)
+		if err != nil {
+			t.Fatal(err)
+		}
+		return r
+	}
+	start := time.Now()
+	rot()                                       // bootstrap
+	time.Sleep(time.Until(start.Add(5 * unit))) // next not yet valid: nothing changes
+	rot()
+	time.Sleep(time.Until(start.Add(22 * unit))) // current expired, next valid: promotion, new next minted
+	prevCall := time.Now()
+	before := rot()
+	// come back just after the freshly minted next has expired
+	at := before.Next.NotAfter.AsTime().Add(20 * time.Millisecond)
+	if at.Sub(prevCall) >= span {
+		t.Skipf("timing: the next root outlived one span after the call (%v)", at.Sub(prevCall))
+	}
+	time.Sleep(time.Until(at))
+	interval := time.Since(prevCall)
+	after := rot()
+	if interval >= span {
+		t.Skipf("timing: slept past one validity span (%v)", interval)
+	}
+	if bytes.Equal(after.Current.PublicKeyPkix, before.Next.PublicKeyPkix) {
+		t.Logf("the previous next root was promoted after an interval of %v (< span %v): move the finding to 'fixed'", interval, span)
+	} else {
+		t.Logf("KNOWN FINDING C09/F12 still present: rotation interval %v is shorter than the validity span %v, yet both roots were replaced (the next root minted %v earlier had expired)", interval, span, interval)
+	}
+}
